@@ -456,6 +456,12 @@ class Module(HasAccessibles):
             self.parameters[name] = accessible
         if isinstance(accessible, Command):
             self.commands[name] = accessible
+        if isinstance(accessible, Limit):
+            # the datatype of a limit is derived from its base parameter. set it now, as the
+            # configured properties and values have to be checked against it
+            baseparam = self.parameters.get(name.rpartition('_')[0])
+            if baseparam and baseparam.datatype is not None:
+                accessible.set_datatype(baseparam.datatype)
         if cfg is not None:
             try:
                 # apply 'value', 'default' and 'constant' last, as they must be checked
